@@ -51,7 +51,7 @@ def fsrc(L, vi, j):
     return L["variants"][vi - 1]["fields"][j].get("src", "f%d" % j)
 
 
-GUISES = ["copy", "copy", "paren_ty", "alias_ty", "proj_ty", "empty_where", "raw_fields", "foreign_attrs", "macro_ty", "trailing_commas", "param_default", "vis"]
+GUISES = ["copy", "copy", "marker_spelled_ty", "paren_ty", "alias_ty", "proj_ty", "empty_where", "raw_fields", "foreign_attrs", "macro_ty", "trailing_commas", "param_default", "vis"]
 
 
 def item_src(L, entry, order=0, generic=False, guise=()):
@@ -91,6 +91,9 @@ def item_src(L, entry, order=0, generic=False, guise=()):
         wty = "(%s)" % W
     elif "alias_ty" in guise:
         wty = "Wa"
+    elif "marker_spelled_ty" in guise:
+        # the field type itself, spelled so that a marker type occurs INSIDE it (a type argument of the projection's trait)
+        wty = "<%s as ::dx_support::IdtP<::core::marker::PhantomData<(u8, ::core::marker::PhantomPinned)>>>::Same" % W
     elif "proj_ty" in guise:
         wty = "<%s as ::dx_support::Idt>::Same" % W
     vis = "pub(crate) " if "vis" in guise else "pub "
